@@ -61,7 +61,8 @@ Fixpoint seq_ok (c : case) (st : state sdesc N) (l : list (mop * mres)) : bool :
 
 Definition hist_ok (c : case) : bool := lin_check (state sdesc N) mop mres (mstep c) res_eqb init (c_hist c).
 
-Definition check (c : case) : bool := negb (c_crashed c) && seq_ok c init (c_seq c) && hist_ok c.
+(* model vs implementation, op by op (concurrent histories are judged by prop_check only) *)
+Definition check (c : case) : bool := negb (c_crashed c) && seq_ok c init (c_seq c).
 
 Definition bad_ids (cs : list (N * case)) : list N :=
   map fst (filter (fun p => negb (check (snd p))) cs).
